@@ -4,6 +4,8 @@ import (
 	"fmt"
 	"slices"
 	"sort"
+
+	"github.com/pancsta/asyncmachine-go/internal/verifhook"
 )
 
 // RelationsResolver is an interface for parsing relations between states.
@@ -282,6 +284,7 @@ func (rr *DefaultRelationsResolver) parseAdd(states S) S {
 			changed = true
 		}
 	}
+	verifhook.Data("rel.parseAdd", t, states, ret)
 
 	return ret
 }
